@@ -102,6 +102,13 @@ pub fn run_c11(run: &mut Run) -> anyhow::Result<()> {
                 x
             }
         };
+        // tokio's timer wheel has millisecond granularity: a handler that needs longer than the deadline but
+        // finishes within the same millisecond tick is a tie (which the inner call wins); keep clear of it
+        let ceil_ms = |x: u64| x.div_ceil(MS);
+        let d = match eff {
+            Some(e) if d > e && ceil_ms(d) == ceil_ms(e) => d + MS,
+            _ => d,
+        };
         let hdr2 = hdr.clone();
         let (class, elapsed): (String, u64) = rt.block_on(async move {
             let inner = service_fn(move |_req: Request<Bytes>| async move {
